@@ -3,3 +3,5 @@ import CmProofs.Schedules
 import CmProofs.SearchWithin
 import CmProofs.SearchMono
 import CmProofs.SearchSim
+import CmProofs.RealNum
+import CmProofs.WcagReal
